@@ -54,7 +54,7 @@ func libGoroutines() []string {
 	return out
 }
 
-var c20Endings = []string{"Close", "CloseNow", "peer-close-then-Close", "protocol-error-then-CloseNow", "ctx-expiry-then-Close", "cut-eof-then-Close", "cut-err-then-CloseNow", "silent-peer-Close", "peer-close-then-CloseNow", "closeread-data-then-Close", "closeread-partial-data-stall-then-CloseNow", "closeread-partial-data-stall-then-Close"}
+var c20Endings = []string{"Close", "CloseNow", "peer-close-then-Close", "protocol-error-then-CloseNow", "ctx-expiry-then-Close", "cut-eof-then-Close", "cut-err-then-CloseNow", "silent-peer-Close", "peer-close-then-CloseNow", "closeread-data-then-Close", "closeread-partial-data-stall-then-CloseNow", "closeread-partial-data-stall-then-Close", "write-error-then-CloseNow", "write-error-then-Close"}
 
 func runC20(r *Run) {
 	t := r.Tape
@@ -85,8 +85,11 @@ func runC20(r *Run) {
 		if p.closeRead {
 			p.abReader, p.netconn = false, false
 		}
-		if p.ending >= 9 {
+		if p.ending >= 9 && p.ending <= 11 {
 			p.closeRead, p.abReader, p.netconn = true, false, false
+		}
+		if p.ending >= 12 {
+			p.abWriter = false
 		}
 		if p.pair && p.ending >= 2 {
 			p.ending = p.ending % 2
@@ -293,6 +296,21 @@ func runC20(r *Run) {
 			peer.SendBytes(b[:len(b)-60])
 			r.S.Sleep(time.Second)
 			if p.ending == 10 {
+				cerr = c.CloseNow()
+			} else {
+				cerr = c.Close(websocket.StatusNormalClosure, "done")
+			}
+		case 12, 13:
+			// the transport fails a write half way (short write + error)
+			out := rc.Lib.Out()
+			r.S.Lock()
+			out.WErrAt = out.Written + 100
+			r.S.Unlock()
+			werr := c.Write(bg, websocket.MessageBinary, Payload{Kind: 2, Len: 5000, Seed: 1}.Bytes())
+			if werr == nil {
+				r.Violate("write-error-swallowed", sig, "a transport write error in the middle of a frame was not reported by Write")
+			}
+			if p.ending == 12 {
 				cerr = c.CloseNow()
 			} else {
 				cerr = c.Close(websocket.StatusNormalClosure, "done")
